@@ -59,13 +59,23 @@ def plusCase (scal : Bool) (prevOpts : Option Nat) (h : PlusHdr) : G (String × 
   let rpsInForce := if h.ufep then h.rps else Opt.has (po &&& Opt.OPPTYPE_OPTIONS) Opt.REFERENCE_PICTURE_SELECTION
   let (hx, n) := pack (encodePlusHdr scal rpsInForce h) t
   let prevS := match prevOpts with | some o => s!"o{o}" | none => "-"
-  -- the parser demands RPRP (unimplemented) when the format differs from the previous header's: a synthetic previous header
-  -- has no format, so only UFEP=000 headers follow it without that
-  let rprp := h.rpr ∨ (prevOpts.isSome ∧ h.ufep)
+  -- RPRP (unimplemented) is demanded when RPR is signalled.  A header that does not restate the format (UFEP = 000), or one that
+  -- follows a header without a format, does not change the format.
+  let rprp := h.rpr
   let parBad := h.ufep ∧ h.srcFmt = 6 ∧ (h.par = 0 ∨ (h.par = 15 ∧ (h.eparW = 0 ∨ h.eparH = 0)))
   let ok := h.markersOk ∧ !parBad ∧ !rprp
   pure (s!"H {if scal then 2 else 0} {prevS} {hx}",
         if ok then expectOk (plusPicture scal po h) n else expectErr)
+
+/-- a UFEP = 000 header after a real previous header (given in hex, parsed first): the format is not restated and the
+OPPTYPE-class modes of the previous header stay in force -/
+def plusAfterCase (scal : Bool) (hprev h : PlusHdr) : G (String × String) := do
+  let t ← genTail
+  let pp := plusPicture scal 0 hprev
+  let rpsInForce := Opt.has (pp.options &&& Opt.OPPTYPE_OPTIONS) Opt.REFERENCE_PICTURE_SELECTION
+  let (phx, _) := pack (encodePlusHdr scal hprev.rps hprev) []
+  let (hx, n) := pack (encodePlusHdr scal rpsInForce h) t
+  pure (s!"H {if scal then 2 else 0} {phx} {hx}", expectOk (plusPicture scal pp.options h) n)
 
 def randPlus (ufep : Bool) : G PlusHdr := do
   let custom ← coin 2 3
@@ -142,6 +152,18 @@ def allCases (thorough : Bool) : G (List (String × String)) := do
     out := (← plusCase scal prev p0) :: out
     out := (← sorCase (← randSor)) :: out
     out := (← baseCase (← randBase)) :: out
+  -- UFEP = 000 after a parsed UFEP = 001 header: inheritance of every OPPTYPE mode bit from a real previous header
+  for m in [0:(if thorough then 1024 else 256)] do
+    let scal ← coin 1 2
+    let p ← randPlus true
+    let low ← below 4
+    let mm := if thorough then m else m * 4 + low
+    let bit := fun (k : Nat) => mm / 2 ^ k % 2 = 1
+    let hprev : PlusHdr := { p with umv := bit 9, sac := bit 8, ap := bit 7, aic := bit 6, df := bit 5, ss := bit 4, rps := bit 3,
+                                    isd := bit 2, aiv := bit 1, mq := bit 0, rpr := false, srcFmt := if p.srcFmt = 0 ∨ p.srcFmt = 7 then 3 else p.srcFmt,
+                                    par := if p.par = 0 then 1 else p.par, eparW := max 1 p.eparW, eparH := max 1 p.eparH, phi := max 1 p.phi }
+    let p0 ← randPlus false
+    out := (← plusAfterCase scal hprev { p0 with rpr := false }) :: out
   -- fixed markers
   for _ in [0:(if thorough then 400 else 40)] do
     let p ← randPlus true
@@ -151,6 +173,16 @@ def allCases (thorough : Bool) : G (List (String × String)) := do
     out := (← plusCase false none { p with srcFmt := 6, cpfmtMarker := false, rpr := false }) :: out
     out := (← plusCase false none { p with umv := true, uuiBad := true, rpr := false }) :: out
     out := (← plusCase false none { p with rps := true, bciBad := true, rpr := false }) :: out
+  -- BCI = "1" (a back-channel message follows: not implemented): flip the first BCI bit of a valid header with reference picture
+  -- selection (the header ends TRPI=0, BCI "01", PQUANT, PEI=0, so the bit sits 8 from the end)
+  for _ in [0:8] do
+    let p ← randPlus true
+    let h : PlusHdr := { p with rps := true, rpr := false, trp := none, extra := [], picType := p.picType % 2 }
+    let bits := encodePlusHdr false true h
+    let pos := bits.length - 8
+    let bad := bits.set pos true
+    let (hx, _) := pack bad []
+    out := (s!"H 0 - {hx}", expectErr) :: out
   pure out.reverse
 
 def run (kind : String) (seed : Nat) : List String :=
